@@ -16,3 +16,13 @@ ASSUMPTIONS = {
           "BoxOp/BoxObserver/BoxSubscription and the Infallible->Val on_error_map adaptors of the crate are part of every replayed pipeline",
           "closures handed to operators are the fixed total function families of spec/RxVal.tla"],
 }
+
+DEFAULT_TEXT = ("Exhaustive (bounded) model checking of the TLA+ abstract machine of rxRust with the property written as a monitor over "
+                "observations, plus conformance in both directions: every behaviour TLC generates is replayed on the real crate (local and "
+                "thread-safe form) and compared step by step, and every execution of the real crate that differs or that the model flags is "
+                "judged by TLC again with the same monitors on the observed trace.")
+DEFAULT_NOTE = ("Trusted: TLC, the hand-written specification's reading of the property, the Rust harness (probe, builder). Bounded: pipeline depth, "
+                "script length and value alphabet as stated in the evidence; nothing is claimed beyond them.")
+NOTES = {}
+NOT_YET = {}
+HOOK_COMMITS = []
